@@ -49,7 +49,12 @@ def grant_case():
             elif method == "publickey-probe":
                 wire_method, kw = "publickey", {"sig_attached": False, "keyblob": keyblob}
             elif method == "publickey":
-                kw = {"sig_attached": True, "keyblob": keyblob, "sig": sig}
+                import struct as _st
+                from props._pkt import cat as _cat
+                # signature blob = string(algorithm) + string(signature bytes); the label may be wrong (solver choice)
+                label = ctx.choice("signature-label", [A.ALG, "ssh-rsa"])
+                sigblob = _cat(_st.pack(">I", len(label)) + label.encode(), _st.pack(">I", 2), sig)
+                kw = {"sig_attached": True, "keyblob": keyblob, "sig": sigblob}
             req = A.userauth_request(user, "ssh-connection", wire_method, **kw)
             srv = L.make_server_interface(log, allow_none=False)
             srv.check_auth_none = lambda u: (log.append(("check_auth_none", u)), result)[1]
@@ -101,7 +106,8 @@ def grant_case():
                         data, sg = A.StubKey.calls[0]
                         ref = A.ref_session_blob(t.session_id, user, "ssh-connection", A.ALG, keyblob)
                         ctx.prove(data == ref, "signed-data==session_id|50|user|service|publickey|1|alg|key")
-                        ctx.prove(sg == sig, "the-signature-checked-is-the-one-in-the-request")
+                        ctx.prove(sg == sigblob, "the-signature-checked-is-the-one-in-the-request")
+                        ctx.prove(label == A.ALG, "granted-publickey=>signature-names-the-declared-algorithm")
                     ctx.prove(t.session_id == b"H" * 19 + b"\x01", "session-identifier-is-the-first-exchange-hash")
             else:
                 ctx.reach("not-granted")
